@@ -143,13 +143,14 @@ parseChunks:
 				return nil, fmt.Errorf("invalid ICC profile chunk length")
 			}
 
-			chunkData := make([]byte, ch.Length-offset)
-			_, err = io.ReadFull(r, chunkData)
-			if err == io.ErrUnexpectedEOF {
-				return nil, fmt.Errorf("unexpected EOF reading ICC profile chunk")
-			}
+			// Read through a limit into a growing buffer so that the declared
+			// chunk length alone cannot force a large allocation.
+			chunkData, err := io.ReadAll(io.LimitReader(r, int64(ch.Length-offset)))
 			if err != nil {
 				return nil, err
+			}
+			if uint32(len(chunkData)) != ch.Length-offset {
+				return nil, fmt.Errorf("unexpected EOF reading ICC profile chunk")
 			}
 
 			// Skip chunk CRC
